@@ -117,6 +117,18 @@ func generate(r *hx.Run, pki *dialx.PKI) []dialx.Case {
 					}
 					out = append(out, c)
 				}
+				// a 421 (service closing channel) that is not followed by a disconnect: the server keeps the connection
+				// open and is silent from the next command on
+				if k != "dial" {
+					for q := 0; q+1 < n; q++ {
+						c := base
+						c.Script = append(dialx.OKs(q), "421", "stall")
+						if strings.HasPrefix(au, "SCRAM") && pa >= 0 && q > pa {
+							c.Script[pa] = "535"
+						}
+						out = append(out, c)
+					}
+				}
 				// silence inside the TLS handshake
 				if m.pol != "N" || m.ssl {
 					c := base
